@@ -24,11 +24,12 @@ import (
 
 // childOut is what one execution of one history reports.
 type childOut struct {
-	Skipped  bool           `json:"skipped,omitempty"`
-	Obs      []string       `json:"obs"` // one entry per step; sub-observations separated by \x1f
-	Counters map[string]int `json:"counters"`
-	Unmapped int            `json:"unmapped"`  // anonymous executable mappings that disappeared across forced GCs
-	MapsPeak int            `json:"maps_peak"` // most anonymous executable mappings seen
+	Skipped   bool             `json:"skipped,omitempty"`
+	Obs       []string         `json:"obs"` // one entry per step; sub-observations separated by \x1f
+	Counters  map[string]int   `json:"counters"`
+	AllocViol []allocViolation `json:"alloc_viol,omitempty"` // custom allocator: Free() of a memory whose defining instance is open
+	Unmapped  int              `json:"unmapped"`             // anonymous executable mappings that disappeared across forced GCs
+	MapsPeak  int              `json:"maps_peak"`            // most anonymous executable mappings seen
 }
 
 const obsSep = "\x1f"
@@ -43,10 +44,18 @@ type executor struct {
 	comps  [maxRT][]wazero.CompiledModule
 	comps2 [maxRT][]wazero.CompiledModule // the same runtime compiled the same binary a second time
 	dir    string
-	bins   [][]byte
-	insts  []api.Module
-	held   []api.Function
-	hargs  [][]uint64
+	// custom allocator bookkeeping
+	alloc         *trackAlloc
+	instantiating int          // instance id whose instantiation is running (-1 none)
+	closing       map[int]bool // instances the host has closed or is closing (incl. through their runtime)
+	instRT        map[int]int
+	tearing       bool
+	curKind       string
+	inCall        bool
+	bins          [][]byte
+	insts         []api.Module
+	held          []api.Function
+	hargs         [][]uint64
 
 	subs   []Op     // pending in-call sub-ops of the current step
 	subObs []string // their observations
@@ -155,6 +164,16 @@ func runHistory(h *History, twin bool, progress func(step int)) *childOut {
 		e.hosts[r] = hm
 	}
 	e.insts = make([]api.Module, h.NInst)
+	e.instantiating, e.closing, e.instRT = -1, map[int]bool{}, map[int]int{}
+	for _, st := range h.Steps {
+		if st.Kind == "inst" {
+			e.instRT[st.Inst] = st.RT
+		}
+	}
+	if h.Alloc {
+		e.alloc = &trackAlloc{e: e}
+		e.ctx = experimental.WithMemoryAllocator(e.ctx, e.alloc)
+	}
 	for i := range h.Steps {
 		e.step = i
 		if progress != nil {
@@ -162,6 +181,7 @@ func runHistory(h *History, twin bool, progress func(step int)) *childOut {
 		}
 		op := &h.Steps[i]
 		e.subs, e.subObs = op.Sub, nil
+		e.curKind, e.inCall = op.Kind, false
 		t0 := time.Now()
 		main := e.exec(op, false)
 		if profOn {
@@ -184,7 +204,12 @@ func runHistory(h *History, twin bool, progress func(step int)) *childOut {
 	// neither accumulates mappings nor carries this history's garbage into the
 	// next one's mapping census
 	rts, cache, dir := e.rts, e.cache, e.dir
-	*e = executor{out: e.out}
+	e.tearing = true
+	defer func(alloc *trackAlloc) {
+		if alloc != nil {
+			alloc.e = &executor{out: &childOut{Counters: map[string]int{}}, tearing: true} // late finalizer-driven frees
+		}
+	}(e.alloc)
 	for r := 0; r < nrt; r++ {
 		if rts[r] != nil {
 			rts[r].Close(context.Background())
@@ -197,6 +222,8 @@ func runHistory(h *History, twin bool, progress func(step int)) *childOut {
 		os.RemoveAll(dir)
 	}
 	rts, cache = [maxRT]wazero.Runtime{}, nil
+	out := e.out
+	*e = executor{out: out, tearing: true, closing: map[int]bool{}}
 	gcAndDrain()
 	return e.out
 }
@@ -208,6 +235,7 @@ func (e *executor) act() {
 	e.subs = nil // once per step
 	for i := range subs {
 		e.count("incall_ops")
+		e.curKind, e.inCall = subs[i].Kind, true
 		o := e.exec(&subs[i], true)
 		if subs[i].Kind == "call" {
 			e.subObs = append(e.subObs, o)
@@ -378,6 +406,8 @@ func (e *executor) exec(op *Op, inCall bool) string {
 			cfg := wazero.NewModuleConfig().WithName(op.Name)
 			var mod api.Module
 			var err error
+			e.instantiating = op.Inst
+			defer func() { e.instantiating = -1 }()
 			if e.h.Mods[op.Slot].Implicit {
 				mod, err = rt.InstantiateWithConfig(e.ctx, e.bins[op.Slot], cfg)
 			} else {
@@ -450,6 +480,23 @@ func (e *executor) exec(op *Op, inCall bool) string {
 			res, err := f.Call(e.ctx)
 			return fmtRes(res, err)
 		})
+	case "memapi":
+		mod := e.insts[op.Inst]
+		if mod == nil {
+			return "skip:absent"
+		}
+		e.count("api_memory_accesses")
+		return guard(func() string {
+			mem := mod.Memory()
+			if mem == nil {
+				return "nomem"
+			}
+			w := mem.WriteUint32Le(100, uint32(op.N))
+			v, ok := mem.ReadUint32Le(100)
+			v64, ok2 := mem.ReadUint32Le(64) // the guest's marker
+			sz, ok3 := mem.Grow(0)
+			return fmt.Sprintf("ok:w=%v r=%d/%v marker=%d/%v pages=%d/%v", w, v, ok, v64, ok2, sz, ok3)
+		})
 	case "gread":
 		mod := e.insts[op.Inst]
 		if mod == nil {
@@ -509,6 +556,7 @@ func (e *executor) exec(op *Op, inCall bool) string {
 	case "closemany":
 		for _, id := range op.Args {
 			if mod := e.insts[id]; mod != nil {
+				e.closing[int(id)] = true
 				e.count("close_module")
 				guard(func() string { mod.Close(e.ctx); return "" })
 			}
@@ -522,6 +570,7 @@ func (e *executor) exec(op *Op, inCall bool) string {
 		}
 	case "closemod":
 		if mod := e.insts[op.Inst]; mod != nil {
+			e.closing[op.Inst] = true
 			e.count("close_module")
 			if inCall {
 				e.count("close_module_incall")
@@ -538,6 +587,11 @@ func (e *executor) exec(op *Op, inCall bool) string {
 		}
 	case "closert":
 		if rt := e.rts[op.RT]; rt != nil {
+			for id, r := range e.instRT {
+				if r == op.RT {
+					e.closing[id] = true
+				}
+			}
 			e.count("close_runtime")
 			return guard(func() string { rt.Close(e.ctx); return "" })
 		}
